@@ -42,78 +42,69 @@ theorem mkRecvPacket_uid (s : St) (c seq ph : Nat) (rid : Bytes) (d : RecvData) 
 theorem inv_recvFail {s0 : St} (c seq : Nat) (h : Inv04 s0) : Inv04 (recvFail s0 c seq).1 :=
   Inv04.of_frame (frame_writeAck s0 c seq false) h
 
-theorem inv_recvOpen {s : St} (c seq ph : Nat) (d : RecvData) (h : Inv04 s) : Inv04 (recvOpen s c seq ph d).1 := by
-  unfold recvOpen
+theorem inv_recvAuth {s0 : St} (c seq ph : Nat) (d : RecvData) (h0 : Inv04 s0)
+    (hnl : ¬ loggedL s0.log (true, c, seq)) (hnp : ¬ pendL s0.packets (true, c, seq)) (e_rc : (c, seq) ∈ s0.receipts) :
+    Inv04 (recvAuth s0 c seq ph d).1 := by
+  unfold recvAuth
   split
-  · exact h
-  · rename_i hc
-    have hnr : (c, seq) ∉ s.receipts := by simpa using hc
-    have hnl : ¬ loggedL s.log (true, c, seq) := fun hl => hnr (InvF.rcv h c seq (Or.inl hl))
-    have hnp : ¬ pendL s.packets (true, c, seq) := fun hp => hnr (InvF.rcv h c seq (Or.inr hp))
-    -- the state with the receipt written
-    generalize hs0 : ({ s with receipts := s.receipts ++ [(c, seq)] } : St) = s0
-    have h0 : Inv04 s0 := by subst hs0; exact InvF.addReceipt h (c, seq)
-    have e_pk : s0.packets = s.packets := by subst hs0; rfl
-    have e_lg : s0.log = s.log := by subst hs0; rfl
-    have e_rc : (c, seq) ∈ s0.receipts := by subst hs0; simp
-    rw [← e_lg] at hnl
-    rw [← e_pk] at hnp
-    unfold recvAuth
+  · exact inv_recvFail c seq h0
+  · rename_i ra hra
     split
     · exact inv_recvFail c seq h0
-    · rename_i ra hra
-      split
+    · split
       · exact inv_recvFail c seq h0
-      · split
-        · exact inv_recvFail c seq h0
-        · rename_i tgt htgt
+      · rename_i tgt htgt
+        split
+        · -- pass through
+          rename_i hpass
+          unfold recvPass
           split
-          · -- pass through
-            rename_i hpass
-            unfold recvPass
-            split
+          · exact inv_recvFail c seq h0
+          · rename_i s1 hics
+            have f1 := frame_icsRecv hics
+            have h1 : Inv04 s1 := Inv04.of_frame f1 h0
+            apply Inv04.of_frame (frame_writeAck _ c seq true)
+            apply logRelease_inv
+            apply InvF.logAppend h1
+            · apply EOk_logEntry_pass
+              have : isFinalizedFor s1 ra ph = isFinalizedFor s0 ra ph := by
+                unfold isFinalizedFor
+                cases ra with
+                | none => rfl
+                | some r => simp only [finHeight_frame f1]
+              simpa [mkRecvPacket, this] using hpass
+            · rw [logEntry_uid, mkRecvPacket_uid, f1.log]; exact hnl
+            · rw [logEntry_uid, mkRecvPacket_uid, f1.packets]; exact hnp
+            · intro c' q' e
+              rw [logEntry_uid, mkRecvPacket_uid] at e
+              obtain ⟨-, rfl, rfl⟩ := Prod.mk.inj e |>.imp id Prod.mk.inj
+              rw [f1.receipts]; exact e_rc
+            · intro c' q' e
+              rw [logEntry_uid, mkRecvPacket_uid] at e
+              simp at e
+        · -- delayed
+          unfold recvDelay
+          split
+          · exact inv_recvFail c seq h0
+          · split
             · exact inv_recvFail c seq h0
-            · rename_i s1 hics
-              have f1 := frame_icsRecv hics
-              have h1 : Inv04 s1 := Inv04.of_frame f1 h0
-              apply Inv04.of_frame (frame_writeAck _ c seq true)
-              apply logRelease_inv
-              apply InvF.logAppend h1
-              · apply EOk_logEntry_pass
-                have : isFinalizedFor s1 ra ph = isFinalizedFor s0 ra ph := by
-                  unfold isFinalizedFor
-                  cases ra with
-                  | none => rfl
-                  | some r => simp only [finHeight_frame f1]
-                simpa [mkRecvPacket, this] using hpass
-              · rw [logEntry_uid, mkRecvPacket_uid, f1.log]; exact hnl
-              · rw [logEntry_uid, mkRecvPacket_uid, f1.packets]; exact hnp
+            · rename_i s2 he
+              refine Inv04.of_frame (frame_eibcOnRecv he) ?_
+              apply inv_setPacket_show
+              apply InvF.setPending (inv_addByAddr _ _ h0)
+              · rw [mkRecvPacket_uid]; exact hnl
+              · rw [mkRecvPacket_uid]; exact hnp
               · intro c' q' e
-                rw [logEntry_uid, mkRecvPacket_uid] at e
+                rw [mkRecvPacket_uid] at e
                 obtain ⟨-, rfl, rfl⟩ := Prod.mk.inj e |>.imp id Prod.mk.inj
-                rw [f1.receipts]; exact e_rc
+                exact e_rc
               · intro c' q' e
-                rw [logEntry_uid, mkRecvPacket_uid] at e
+                rw [mkRecvPacket_uid] at e
                 simp at e
-          · -- delayed
-            unfold recvDelay
-            split
-            · exact inv_recvFail c seq h0
-            · split
-              · exact inv_recvFail c seq h0
-              · rename_i s2 he
-                refine Inv04.of_frame (frame_eibcOnRecv he) ?_
-                apply inv_setPacket_show
-                apply InvF.setPending (inv_addByAddr _ _ h0)
-                · rw [mkRecvPacket_uid]; exact hnl
-                · rw [mkRecvPacket_uid]; exact hnp
-                · intro c' q' e
-                  rw [mkRecvPacket_uid] at e
-                  obtain ⟨-, rfl, rfl⟩ := Prod.mk.inj e |>.imp id Prod.mk.inj
-                  exact e_rc
-                · intro c' q' e
-                  rw [mkRecvPacket_uid] at e
-                  simp at e
+
+theorem inv_markFwd {s : St} (k q : Nat) (r : Nat × Nat) (h : Inv04 s) : Inv04 (markFwd s k q r) := h
+
+-- (inv_recvForward, inv_recvOpen: after inv_sendOpen)
 
 -- ------------------------------------------------------------------ send
 
@@ -137,6 +128,35 @@ theorem inv_sendOpen {s s' : St} {a c d amt} (h : Inv04 s) (hs : sendOpen s a c 
         simp only [getNextSeq_eq]
         rw [f.nextSeq] at this ⊢
         exact this
+
+theorem inv_recvForward {s0 : St} (c seq ph : Nat) (d : RecvData) (k : Nat) (h0 : Inv04 s0)
+    (hnl : ¬ loggedL s0.log (true, c, seq)) (hnp : ¬ pendL s0.packets (true, c, seq)) (e_rc : (c, seq) ∈ s0.receipts) :
+    Inv04 (recvForward s0 c seq ph d k).1 := by
+  unfold recvForward
+  have ha := inv_recvAuth c seq ph { d with target := some (pfmAddr c), memo := .none } h0 hnl hnp e_rc
+  split
+  · rename_i s1 hr
+    rw [hr] at ha
+    split
+    · rename_i s2 hs
+      have h1 : Inv04 { s1 with acks := s0.acks } := ha
+      exact inv_markFwd _ _ _ (inv_sendOpen h1 (sendTransfer_ok hs))
+    · exact inv_recvFail c seq h0
+  · exact inv_recvFail c seq h0
+
+theorem inv_recvOpen {s : St} (c seq ph : Nat) (d : RecvData) (h : Inv04 s) : Inv04 (recvOpen s c seq ph d).1 := by
+  unfold recvOpen
+  split
+  · exact h
+  · rename_i hc
+    have hnr : (c, seq) ∉ s.receipts := by simpa using hc
+    have hnl : ¬ loggedL s.log (true, c, seq) := fun hl => hnr (InvF.rcv h c seq (Or.inl hl))
+    have hnp : ¬ pendL s.packets (true, c, seq) := fun hp => hnr (InvF.rcv h c seq (Or.inr hp))
+    have h0 : Inv04 { s with receipts := s.receipts ++ [(c, seq)] } := InvF.addReceipt h (c, seq)
+    have e_rc : (c, seq) ∈ ({ s with receipts := s.receipts ++ [(c, seq)] } : St).receipts := by simp
+    split
+    · exact inv_recvForward c seq ph d _ h0 hnl hnp e_rc
+    · exact inv_recvAuth c seq ph d h0 hnl hnp e_rc
 
 -- ------------------------------------------------------------------ acknowledgement / timeout
 
@@ -234,7 +254,7 @@ theorem inv_ackOpen {s s' : St} {c seq ph : Nat} {isTimeout isErr : Bool} (h : I
               · cases ha
               · rename_i s2 he
                 cases ha
-                exact Inv04.of_frame (frame_eibcOnRefund he) key
+                exact Inv04.of_frame (frame_eibcOnRefund (eibcRefundHandler_ok he)) key
             · cases ha
               exact key
 
@@ -550,6 +570,11 @@ theorem inv_step {s : St} (o : Op) (h : Inv04 s) : Inv04 (step s o).1 := by
     · exact h
   | chanClose c => exact inv_ofM h (fun _ e => Inv04.of_frame (frame_setChanClosed e) h)
   | chanOpen c => exact inv_ofM h (fun _ e => Inv04.of_frame (frame_setChanClosed e) h)
+  | timeoutOnClose c seq => exact inv_ofM h (fun _ e => by unfold timeoutOnClose at e; split at e <;> cases e; exact h)
+  | sendBlk a c d amt =>
+    exact inv_ofM h (fun _ e => by
+      obtain ⟨s1, hs, rfl⟩ := sendBlk_ok e
+      exact (inv_sendOpen h hs : Inv04 s1))
   | finalize a rid ph t src seq => exact inv_ofM h (fun _ e => inv_msgFinalize h e)
   | finalizeByKey a b => exact inv_ofM h (fun _ e => inv_msgFinalizeByKey h e)
   | fulfill a id fee => exact inv_ofM h (fun _ e => inv_msgFulfill h e)
